@@ -196,6 +196,17 @@ def opT : Tok String := do
     | _ => lineTreeSearch Float.sqrt Float.abs k u1 dt ring P n roots
   return s!"{hx u0} {hx u1} " ++ searchOut found
 
+/-- `B bx by bz tree teo clamp nActive <parts>` → what the end-of-step open boundary check (+ tree update) leaves for the
+    collision search: N, N_active, then the identities in array order -/
+def opB : Tok String := do
+  let bx ← tF; let bY ← tF; let bz ← tF
+  let tree ← tNat; let teo ← tNat; let clamp ← tNat; let nActive ← tInt
+  let n ← tNat
+  let parts ← tMany tPart n
+  let s0 : Sim (Part Float) := ⟨parts, nActive, 0, tree != 0, false, 0⟩
+  let s := searchInputOpen bx bY bz (teo != 0) (clamp != 0) s0
+  return " ".intercalate ([toString s.ps.length, toString s.nActive] ++ s.ps.map (fun p => toString p.id))
+
 def opR : Tok String := do
   let seed ← tNat; let n ← tNat
   let (news, s') := drawNews n n (UInt32.ofNat seed)
@@ -207,6 +218,7 @@ def step (toks : List String) : String :=
   | "S" :: r => (opS.run r).1
   | "F" :: r => (opF.run r).1
   | "T" :: r => (opT.run r).1
+  | "B" :: r => (opB.run r).1
   | _ => "bad-op"
 
 def main : IO Unit := runLines step
